@@ -39,6 +39,10 @@ CANARIES = {
         ("strict-refusal-removed", "stix2/properties.py", "drop-raise-guard", ["STIXObjectProperty.clean", "not allow_custom and has_custom"], "C04.flag-back"),
         ("flag-overwritten-in-loop", "stix2/properties.py", "text", ["has_custom = has_custom or ext.has_custom", "has_custom = ext.has_custom"], "C04.flag-back"),
         ("custom-type-judged-by-default-version", "stix2/properties.py", "text", ["is_object(obj_type, self.spec_version)", "is_object(obj_type)"], "C04.custom-by-version"),
+        ("flag-counts-dropped-values", "stix2/base.py", "text", ["""        has_custom = any(
+            assigned_properties.get(prop_name) not in (None, [])
+            for prop_name in all_custom_prop_names
+        )""", "        has_custom = bool(all_custom_prop_names)"], "C04.flag-back"),
     ],
     "C05": [
         ("fudge-not-strict", "stix2/versioning.py", "flip-compare", ["_fudge_modified", "LtE -> Lt"], "C05.granularity"),
